@@ -300,3 +300,55 @@
             }
         }
     }
+
+//# ob name=raw_verbatim_native role=native_bounded fn=compiler::lexer::Tokenizer::handle_raw_tag kind=bounded bound="every raw body made of 0..=4 fragments from {block start, block end, variable start / end, comment start / end, blank, newline, 'x', 'endraw', 'raw', '-'} that does not itself contain a complete endraw tag (about 2.2*10^4 bodies), under the default delimiters and under ERB-style delimiters sharing the end marker; no markers, trim_blocks / lstrip_blocks off, keep_trailing_newline on; plus two consecutive raw blocks" stmt="a raw block emits its content verbatim whatever tag-like fragments (opened but unclosed tags included) it contains, and ends at the first complete endraw tag"
+    fn raw_verbatim_native() {
+        use crate::Environment;
+        // independent recogniser of a complete endraw tag at the start of `t` (after the block start marker)
+        fn endraw_at(t: &str, block_end: &str) -> bool {
+            let mut t = t;
+            if let Some(r) = t.strip_prefix(['-', '+']) { t = r; }
+            t = t.trim_start_matches(|c: char| c.is_ascii_whitespace());
+            let Some(mut t) = t.strip_prefix("endraw") else { return false };
+            t = t.trim_start_matches(|c: char| c.is_ascii_whitespace());
+            if let Some(r) = t.strip_prefix(['-', '+']) { t = r; }
+            t.starts_with(block_end)
+        }
+        fn contains_endraw(body: &str, bs: &str, be: &str) -> bool {
+            let mut from = 0;
+            while let Some(p) = body[from..].find(bs) { let at = from + p + bs.len(); if endraw_at(&body[at..], be) { return true; } from = from + p + 1; }
+            false
+        }
+        let mut total = 0u64;
+        for (bs, be, vs, ve, cs, ce) in [("{%", "%}", "{{", "}}", "{#", "#}"), ("<%", "%>", "<%=", "%>", "<%#", "%>")] {
+            let mut env = Environment::new();
+            env.set_keep_trailing_newline(true);
+            #[cfg(feature = "custom_syntax")]
+            env.set_syntax(crate::syntax::SyntaxConfig::builder().block_delimiters(bs, be).variable_delimiters(vs, ve).comment_delimiters(cs, ce).build().unwrap());
+            #[cfg(not(feature = "custom_syntax"))]
+            if bs != "{%" { continue; }
+            let frags = [bs, be, vs, ve, cs, ce, " ", "\n", "x", "endraw", "raw", "-"];
+            for len in 0..=4usize {
+                let mut idx = vec![0usize; len];
+                loop {
+                    let body: String = idx.iter().map(|i| frags[*i]).collect();
+                    // the body must not complete an endraw tag, neither alone nor together with the closing tag's first bytes
+                    let src = format!("a{bs} raw {be}{body}{bs} endraw {be}z");
+                    let probe = format!("{body}{bs} endraw {be}");
+                    let first = { let mut from = 0; let mut found = None;
+                        while let Some(p) = probe[from..].find(bs) { let at = from + p + bs.len(); if endraw_at(&probe[at..], be) { found = Some(from + p); break; } from = from + p + 1; } found };
+                    if !contains_endraw(&body, bs, be) && first == Some(body.len()) {
+                        let got = env.render_str(&src, ()).unwrap_or_else(|e| panic!("{src:?} failed: {e}"));
+                        assert!(got == format!("a{body}z"), "raw block {src:?} rendered {got:?}, its content is {body:?}");
+                        total += 1;
+                    }
+                    let mut p = 0;
+                    while p < len { idx[p] += 1; if idx[p] < frags.len() { break; } idx[p] = 0; p += 1; }
+                    if p == len { break; }
+                }
+            }
+            let src = format!("{bs} raw {be}1{bs} x{bs} endraw {be}|{bs} raw {be}{vs} 2 {ve}{bs} endraw {be}");
+            assert!(env.render_str(&src, ()).unwrap() == format!("1{bs} x|{vs} 2 {ve}"), "{src:?}");
+        }
+        assert!(total > 20_000, "{total}");
+    }
